@@ -69,10 +69,14 @@ class Env:
         self.aux = []         # auxiliary loop defs (text)
         self.tmp = 0
         self.nloops = 0
+        self.extra = set(re.findall(r"\((\w+)\s*:", getattr(unit, "extra_binders", {}).get(fn.name, "") or ""))
 
     def fresh(self, base="t"):
-        self.tmp += 1
-        return f"{base}{self.tmp}"
+        owner = self
+        while hasattr(owner, "tmp_owner"):
+            owner = owner.tmp_owner
+        owner.tmp += 1
+        return f"{base}{owner.tmp}"
 
     def child(self):
         e = Env(self.unit, self.fn, self.ret_lean)
@@ -80,6 +84,7 @@ class Env:
         e.loop = self.loop
         e.aux = self.aux
         e.tmp_owner = self
+        e.extra = self.extra
         return e
 
 
@@ -284,11 +289,18 @@ class Emitter:
             raise TErr(f"{self.u.name}::{env.fn.name}: field `.{e[2]}` of a non-state value")
         if k == "matches":
             c = self.cexpr(e[1], env)
-            pat, conds, binds = self.cpat(e[2], env, c.ty)
             if e[3] is not None:
                 raise TErr("matches! with guard")
-            body = "true" if not conds else " && ".join(conds)
-            return Code(f"(match {c.val} with | {pat} => {body} | _ => false)", "bool", c.pre)
+            arms, closed = [], False
+            for (pat, conds, binds) in self.cpat_alts(e[2], env, c.ty):
+                body = "true" if not conds else " && ".join(conds)
+                arms.append(f"| {pat} => {body}")
+                closed = closed or is_irrefutable(pat)
+            uni = ctor_universe(c.ty)
+            covered = {ctor_of(a[2:].split(" =>")[0]) for a in arms}
+            if not closed and not (uni and covered >= uni):
+                arms.append("| _ => false")
+            return Code(f"(match {c.val} with {' '.join(arms)})", "bool", c.pre)
         if k == "index":
             return self.cindex(e, env)
         if k == "mcall":
@@ -435,6 +447,8 @@ class Emitter:
     def call_local(self, tgt, args, env, skip_state):
         """Call of another translated function of the unit."""
         fn, lean = tgt
+        if getattr(self.u, "ghost_params", {}).get(fn.name):
+            raise TErr(f"{self.u.name}::{env.fn.name}: call of `{fn.name}`, which has ghost parameters")
         params = [p for p in fn.params if p[0] != "self"]
         cs, pre = [], []
         ai = 0
@@ -450,9 +464,10 @@ class Emitter:
             c = self.cexpr(a, env, norm_ty(pty))
             pre += c.pre
             cs.append(paren(c.val))
-        targs = ""
-        if fn.generics and self.u.generic_binder:
-            targs = " " + self.u.generic_arg
+        targs = self.gb(fn)[1]
+        need = getattr(self.u, "extra_binders", {}).get(fn.name)
+        if need and need != getattr(self.u, "extra_binders", {}).get(env.fn.name):
+            raise TErr(f"{self.u.name}::{env.fn.name}: calls `{fn.name}`, which needs the extra parameters {need}")
         ret = norm_ty(fn.ret) if fn.ret else "()"
         if ret == "!":
             return Code("()", "!", pre + [f"{self.u.panic}"])
@@ -512,7 +527,10 @@ class Emitter:
         if k == "plit":
             l = p[1]
             if l[0] == "byte":
-                return str(l[1]), [], {}
+                # a byte literal is matched by a variable and a Boolean test (Lean's literal patterns on
+                # UInt8 compile to decision trees that `simp`/`split` handle badly)
+                v = env.fresh("b")
+                return v, [f"({v} == {l[1]})"], {}
             if l[0] == "lit":
                 return str(l[1]), [], {}
             if l[0] == "bool":
@@ -566,14 +584,40 @@ class Emitter:
                 return m, [], {}
             raise TErr(f"{self.u.name}: path pattern `{ctor}` has no translation")
         if k == "por":
-            alts = []
-            for q in p[1]:
-                a, c, b = self.cpat(q, env, ty)
-                if c or b:
-                    raise TErr("or-pattern with bindings or ranges")
-                alts.append(a)
-            return " | ".join(alts), [], {}
+            alts = self.cpat_alts(p, env, ty)
+            if len(alts) != 1:
+                raise TErr(f"{self.u.name}: or-pattern whose alternatives have different shapes is only translated in matches! and match arms")
+            return alts[0]
         raise TErr(f"{self.u.name}: pattern `{k}` is outside the translated subset")
+
+    def cpat_alts(self, p, env, ty):
+        """Alternatives of a pattern as a list of (lean pattern, conditions, bindings).  Alternatives of an
+        or-pattern that have the same shape up to variable names (`Some(b' ') | Some(b'\t')`) are merged
+        into one pattern whose condition is the disjunction."""
+        if p[0] != "por":
+            return [self.cpat(p, env, ty)]
+        out = []
+        for q in p[1]:
+            for (lp, conds, binds) in self.cpat_alts(q, env, ty):
+                if binds:
+                    raise TErr("or-pattern with bindings")
+                shape = re.sub(r"\bb\d+\b", "?", lp)
+                merged = False
+                for i, (lp0, conds0, _) in enumerate(out):
+                    if re.sub(r"\bb\d+\b", "?", lp0) == shape and conds and conds0:
+                        vars0 = re.findall(r"\bb\d+\b", lp0)
+                        vars1 = re.findall(r"\bb\d+\b", lp)
+                        cs = list(conds)
+                        for a, b in zip(vars1, vars0):
+                            cs = [re.sub(r"\b" + a + r"\b", b, c) for c in cs]
+                        c0 = " && ".join(conds0)
+                        c1 = " && ".join(cs)
+                        out[i] = (lp0, [f"({c0} || {c1})"], {})
+                        merged = True
+                        break
+                if not merged:
+                    out.append((lp, conds, {}))
+        return out
 
     def cpat_cond(self, p, var, ty):
         """Condition that variable `var` matches the (range / literal) subpattern."""
@@ -652,40 +696,59 @@ class Emitter:
         return c.pre + [f"pure {paren(c.val)}"]
 
     def cmatch(self, e, env, hint, body_fn):
-        """match with optional guards: arms are tried in order; a failed guard falls through to the
-        remaining arms (a nested match on the same value).  Rust guarantees the arms are exhaustive;
-        where the nested Lean match would not be, the impossible remainder is `panic`."""
+        """match with optional guards: arms are tried in order; a failed guard (or a failed test of a
+        byte literal / range) falls through to the remaining arms (a nested match on the same value).
+        Rust guarantees the arms are exhaustive; where the nested Lean match would not be, the
+        impossible remainder is `panic`."""
         c = self.cexpr(e[1], env)
-        arms = e[2]
+        # or-patterns whose alternatives differ in shape become separate arms with the same body
+        arms = []
+        for (pat, guard, body) in e[2]:
+            if pat[0] == "por":
+                probe = self.cpat_alts(pat, env.child(), c.ty)
+                if len(probe) > 1:
+                    for q in pat[1]:
+                        arms.append((q, guard, body))
+                    continue
+            arms.append((pat, guard, body))
         all_ctors = ctor_universe(c.ty)
 
         def rest(i, covered):
-            """Lean match over arms[i:], given the constructors already fully covered before."""
+            """Lean code trying arms[i:], given the constructors already fully covered before."""
+            while i < len(arms) and ctor_of(self.cpat(arms[i][0], env.child(), c.ty)[0]) in covered:
+                i += 1
+            if i < len(arms) and arms[i][1] is None:
+                lp0, conds0, binds0 = self.cpat(arms[i][0], env.child(), c.ty)
+                if is_irrefutable(lp0) and not conds0 and lp0 in ("_",) :
+                    body = arms[i][2]
+                    return body_fn(body if body[0] == "block" else ("block", [], body, False), env.child())
             out = [f"match {c.val} with"]
             cov = set(covered)
             j = i
-            closed = False
             while j < len(arms):
                 pat, guard, body = arms[j]
                 lp, conds, binds = self.cpat(pat, env, c.ty)
+                if ctor_of(lp) in cov:
+                    j += 1          # this constructor was excluded by an enclosing `| _ =>`
+                    continue
                 sub = env.child()
                 sub.vars.update(binds)
                 b = body_fn(body if body[0] == "block" else ("block", [], body, False), sub)
-                gs = list(conds)
-                gpre = []
-                if guard is not None:
-                    g = self.cexpr(guard, sub, "bool")
-                    gpre = g.pre
-                    gs.append(g.val)
-                if gs:
+                if conds or guard is not None:
                     if j + 1 >= len(arms):
                         raise TErr("guarded last arm")
                     fall = rest(j + 1, set())
-                    out += [f"| {lp} =>", gpre + [f"if {' && '.join(gs)} then", b, "else", fall]]
+                    inner = b
+                    if guard is not None:
+                        g = self.cexpr(guard, sub, "bool")
+                        inner = g.pre + [f"if {g.val} then", b, "else", fall]
+                    if conds:
+                        inner = [f"if {' && '.join(conds)} then", inner, "else", fall]
+                    out += [f"| {lp} =>", inner]
                     this = ctor_of(lp)
                     if is_irrefutable(lp) or (all_ctors and this and cov | {this} >= all_ctors):
                         return out
-                    out += ["| _ =>", rest(j + 1, cov)]
+                    out += ["| _ =>", rest(j + 1, cov | ({this} if this else set()))]
                     return out
                 out += [f"| {lp} =>", b]
                 if is_irrefutable(lp):
@@ -745,7 +808,13 @@ class Emitter:
             if init is None:
                 raise TErr("let without initialiser")
             hint = norm_ty(ann) if ann else None
-            if init[0] in ("if", "iflet", "match", "block"):
+            if init[0] == "block":
+                # `let x = { stmts; tail }` / `unsafe { .. }`: the statements run in place
+                pre_lines = self.cstmts(init[1], env)
+                if init[2] is None:
+                    raise TErr("block without value in a let")
+                return pre_lines + self.cstmt(("let", pat, ann, init[2], None), env)
+            if init[0] in ("if", "iflet", "match"):
                 lines = self.cvalue(init, env, hint)
                 ty = hint or self._last_value_ty
                 lp, muts = self.let_pattern(pat, env, ty)
@@ -881,6 +950,19 @@ class Emitter:
     def merge_vars(self, env, sub):
         pass
 
+    def gb(self, fn):
+        """(binders, arguments) every definition derived from `fn` carries: the integer-type parameter
+        of generic functions and the unit's extra (ghost) parameters."""
+        bs, as_ = [], []
+        if fn.generics and self.u.generic_binder:
+            bs.append(self.u.generic_binder)
+            as_.append(self.u.generic_arg)
+        x = getattr(self.u, "extra_binders", {}).get(fn.name)
+        if x:
+            bs.append(x)
+            as_ += re.findall(r"\((\w+)\s*:", x)
+        return ("".join(" " + b for b in bs), "".join(" " + a for a in as_))
+
     # ------------------------------------------------------------------ loops
     def cloop(self, e, env, label):
         k = e[0]
@@ -893,8 +975,10 @@ class Emitter:
         assigned = set()
         used = set()
         collect(e, assigned, used)
+        inner = set()
+        bound_names(e, inner)
         muts = [v for v in env.vars if v in assigned]
-        caps = [v for v in env.vars if v in used and v not in assigned]
+        caps = [v for v in env.vars if v in used and v not in assigned and v not in inner]
         for m in muts + caps:
             if env.vars[m][1] is None:
                 raise TErr(f"{self.u.name}::{env.fn.name}: cannot type loop variable `{m}`")
@@ -904,8 +988,7 @@ class Emitter:
             mu = "(" + mu + ")"
         cap_binders = "".join(f" ({env.vars[c][0]} : {self.lean_type(env.vars[c][1])})" for c in caps)
         cap_args = "".join(" " + env.vars[c][0] for c in caps)
-        gen = (" " + self.u.generic_binder) if (env.fn.generics and self.u.generic_binder) else ""
-        gen_arg = (" " + self.u.generic_arg) if (env.fn.generics and self.u.generic_binder) else ""
+        gen, gen_arg = self.gb(env.fn)
         sub = env.child()
         sub.loop = dict(muts=muts, label=label, call=f"{lname_}{gen_arg}{cap_args} fuel")
         mut_pat = tuple_of([env.vars[m][0] for m in muts])
@@ -938,10 +1021,7 @@ class Emitter:
                 b = [f"if {' && '.join(conds)} then", b, "else", brk]
             lines += c.pre + [f"match {c.val} with", f"| {pat} =>", b, "| _ =>", brk]
         elif k == "for":
-            h = self.u.for_handler
-            if not h:
-                raise TErr("for loop")
-            return h(self, e, env, label)
+            return self.cfor(e, env, label, lname_, muts, caps, mu, cap_binders, cap_args, gen, gen_arg, mut_pat, brk)
         ret = self.ret_lean_cur
         aux = [f"def {lname_}{gen}{cap_binders} : Nat → {mu} → {self.u.monad} (Ctl {mu} ({ret}))",
                f"  | 0, _ => pure Ctl.fuel",
@@ -963,12 +1043,59 @@ class Emitter:
         if muts:
             # re-bind the loop-carried variables after the loop
             r2 = out
+            fresh = [env.fresh(env.vars[m][0] + "'") for m in muts]
             out = [f"let {r} ← {lname_}{gen_arg}{cap_args} {paren(fuel)} {mut_pat}",
-                   f"let {mut_pat if len(muts) > 1 else env.vars[muts[0]][0]} ← match {r} with",
+                   f"let {tuple_of(fresh)} ← match {r} with",
                    [f"| Ctl.ret v => return v" if not env.loop else f"| Ctl.ret v => return (Ctl.ret v)",
                     f"| Ctl.fuel => {self.u.panic}",
                     f"| Ctl.brk m => pure m"]]
-            out += [f"let mut {env.vars[m][0]} := {env.vars[m][0]}" for m in muts]
+            out += [f"{env.vars[m][0]} := {f}" for m, f in zip(muts, fresh)]
+        return out
+
+    def cfor(self, e, env, label, lname_, muts, caps, mu, cap_binders, cap_args, gen, gen_arg, mut_pat, brk):
+        """`for (i, &x) in slice.iter().enumerate() { body }`: structural recursion over the slice
+        (no fuel), the index counted up from 0."""
+        pat, it, body = e[1], strip_ref(e[2]), e[3]
+        ok = (it[0] == "mcall" and it[2] == "enumerate" and it[1][0] == "mcall" and it[1][2] == "iter"
+              and pat[0] == "ptuple" and len(pat[1]) == 2)
+        if not ok:
+            raise TErr(f"{self.u.name}::{env.fn.name}: only `for (i, &x) in xs.iter().enumerate()` is translated")
+        xs = self.cexpr(it[1][1], env)
+        ip, xp = pat[1][0], pat[1][1]
+        while xp[0] == "pref":
+            xp = xp[1]
+        if ip[0] != "pbind" or xp[0] != "pbind":
+            raise TErr("for pattern")
+        sub = env.child()
+        iv, xv = lname(ip[1]), lname(xp[1])
+        sub.vars[ip[1]] = (iv, "usize")
+        sub.vars[xp[1]] = (xv, "u8")
+        rest_v = env.fresh("rest")
+        call = f"{lname_}{gen_arg}{cap_args} {rest_v} ({iv} + 1)"
+        sub.loop = dict(muts=muts, label=label, call=call)
+        lines = [f"let mut {env.vars[m][0]} := {env.vars[m][0]}" for m in muts]
+        lines += self.cstmts(body[1], sub)
+        if body[2] is not None:
+            lines += self.cstmt(("expr", body[2], True), sub)
+        if not ends_in_jump(lines):
+            lines += [f"{call} {mut_pat}"]
+        ret = self.ret_lean_cur
+        aux = [f"def {lname_}{gen}{cap_binders} : List UInt8 → Nat → {mu} → {self.u.monad} (Ctl {mu} ({ret}))",
+               f"  | [], _, {mut_pat} => pure (Ctl.brk {mut_pat})",
+               f"  | {xv} :: {rest_v}, {iv}, {mut_pat} => do"] + flatten(lines, 2)
+        env.aux.append("\n".join(aux))
+        r = env.fresh("r")
+        out = xs.pre + [f"let {r} ← {lname_}{gen_arg}{cap_args} {paren(xs.val)} 0 {mut_pat}"]
+        if muts:
+            fresh = [env.fresh(env.vars[m][0] + "'") for m in muts]
+            out += [f"let {tuple_of(fresh)} ← match {r} with",
+                    [f"| Ctl.ret v => return v" if not env.loop else f"| Ctl.ret v => return (Ctl.ret v)",
+                     f"| Ctl.fuel => {self.u.panic}", f"| Ctl.brk m => pure m"]]
+            out += [f"{env.vars[m][0]} := {f}" for m, f in zip(muts, fresh)]
+        else:
+            out += [f"match {r} with",
+                    f"| Ctl.ret v => return v" if not env.loop else f"| Ctl.ret v => return (Ctl.ret v)",
+                    f"| Ctl.fuel => {self.u.panic}", f"| Ctl.brk _ =>", ["pure ()"]]
         return out
 
     # ------------------------------------------------------------------ functions
@@ -998,8 +1125,7 @@ class Emitter:
                 kenv = env.child()
                 kenv.vars = {v: env.vars[v] for v in live}
                 kenv.loop = None
-                gen = (" " + self.u.generic_binder) if (env.fn.generics and self.u.generic_binder) else ""
-                gen_arg = (" " + self.u.generic_arg) if (env.fn.generics and self.u.generic_binder) else ""
+                gen, gen_arg = self.gb(env.fn)
                 binders = "".join(f" ({env.vars[v][0]} : {self.lean_type(env.vars[v][1])})" for v in live)
                 klines = [f"let mut {env.vars[v][0]} := {env.vars[v][0]}" for v in live if v in assigned]
                 klines += self.cbody_fn(stmts[i + 1:], tail, kenv, ret_rust)
@@ -1043,9 +1169,7 @@ class Emitter:
         self.ret_lean_cur = ret_lean
         self.cur_lean_name = lean_name
         env = Env(self.u, fn, ret_lean)
-        binders = []
-        if fn.generics and self.u.generic_binder:
-            binders.append(self.u.generic_binder)
+        binders = [b for b in [self.gb(fn)[0].strip()] if b]
         pre = []
         for p in fn.params:
             if p[0] == "self":
@@ -1060,6 +1184,9 @@ class Emitter:
             binders.append(f"({ln} : {self.lean_type(ty)})")
             if pat[3]:
                 pre.append(f"let mut {ln} := {ln}")
+        for gname, gty in getattr(self.u, "ghost_params", {}).get(fn.name, []):
+            ln = self.declare(env, gname, gty, False)
+            binders.append(f"({ln} : {self.lean_type(gty)})")
         body = fn.body
         self.nconts = 0
         lines = pre + self.cbody_fn(body[1], body[2], env, ret_rust)
@@ -1233,6 +1360,18 @@ def res_err(ty):
         if ty.startswith("io::Result<"):
             return "io::Error"
     return None
+
+
+def bound_names(t, acc):
+    """Names bound by patterns anywhere inside a tree (let, if let, while let, match arms, for)."""
+    if isinstance(t, tuple):
+        if t and t[0] == "pbind":
+            acc.add(t[1])
+        for x in t[1:]:
+            bound_names(x, acc)
+    elif isinstance(t, list):
+        for x in t:
+            bound_names(x, acc)
 
 
 def collect(e, assigned, used):
